@@ -18,7 +18,10 @@ use scpi::tree::prelude::*;
 pub const NN: usize = 10; // node ids 0..NN (0 = root)
 pub const HT: usize = KMAX;
 pub static mut REL: [[bool; NN]; HT] = [[false; NN]; HT];
-static IDS: [u8; HT] = [0, 1, 2, 3, 4, 5, 6, 7];
+/// Mnemonic payloads: first byte = token id, then arbitrary bytes; the LENGTH is symbolic
+/// (1..=12) so that nothing in exec may depend on it other than through the matcher.
+pub static mut IDBUF: [[u8; 12]; HT] = [[0; 12]; HT];
+pub static mut IDLEN: [usize; HT] = [1; HT];
 
 fn node_id(name: &[u8]) -> usize {
     if name.is_empty() {
@@ -157,7 +160,7 @@ fn hdecode(code: u8, pos: usize) -> Item {
         1 => Some(Ok(Token::HeaderQuerySuffix)),
         2 => Some(Ok(Token::ProgramMessageUnitSeparator)),
         3 => Some(Ok(Token::ProgramHeaderSeparator)),
-        5 => Some(Ok(Token::ProgramMnemonic(&IDS[pos..pos + 1]))),
+        5 => Some(Ok(Token::ProgramMnemonic(unsafe { &IDBUF[pos][..IDLEN[pos]] }))),
         7 => Some(Ok(Token::NonDecimalNumericProgramData(7))),
         9 => Some(Err(ErrorCode::InvalidSeparator)),
         _ => None,
@@ -273,6 +276,17 @@ fn spec_resolve(t: &[TNode; NN], rel: &[[bool; NN]; HT], codes: &[u8; HT], n: us
 }
 
 fn setup_script<const H: usize>() -> [u8; HT] {
+    unsafe {
+        let mut i = 0;
+        while i < H {
+            IDBUF[i] = kani::any();
+            IDBUF[i][0] = i as u8;
+            let l: usize = kani::any();
+            kani::assume(l >= 1 && l <= 12);
+            IDLEN[i] = l;
+            i += 1;
+        }
+    }
     let mut codes = [11u8; HT];
     let mut script: [Item; HT] = [None; HT];
     let mut i = 0;
